@@ -936,7 +936,14 @@ func (r *runningStep) provideCancelledInput(input map[string]any) {
 	if input["stop_if"] == nil {
 		return
 	}
-	if input["stop_if"] != false {
+	stopIf := input["stop_if"]
+	if asString, isString := stopIf.(string); isString {
+		// A literal in the workflow file arrives as the text of its YAML scalar.
+		if asBool, err := schema.NewBoolSchema().Unserialize(asString); err == nil {
+			stopIf = asBool
+		}
+	}
+	if stopIf != false {
 		r.cancelled = true
 		r.cancelStep()
 	}
